@@ -7,7 +7,7 @@ use serde_json::Value;
 
 use crate::errors::Result;
 use crate::jsontypes::{RawSection, RawSectionOffset, RawSourceMap};
-use crate::types::{DecodedMap, SourceMap, SourceMapIndex};
+use crate::types::{DecodedMap, SourceMap, SourceMapIndex, Token};
 use crate::vlq::encode_vlq;
 
 pub trait Encodable {
@@ -18,6 +18,18 @@ pub fn encode<M: Encodable, W: Write>(sm: &M, mut w: W) -> Result<()> {
     let ty = sm.as_raw_sourcemap();
     serde_json::to_writer(&mut w, &ty)?;
     Ok(())
+}
+
+/// Whether two tokens are written as the same segment: the original position and the
+/// name are only written (and therefore only count) for tokens that have a source.
+fn is_same_segment(a: &Token<'_>, b: &Token<'_>) -> bool {
+    let (a, b) = (a.get_raw_token(), b.get_raw_token());
+    a.dst_line == b.dst_line
+        && a.dst_col == b.dst_col
+        && a.is_range == b.is_range
+        && a.src_id == b.src_id
+        && (a.src_id == !0
+            || (a.src_line == b.src_line && a.src_col == b.src_col && a.name_id == b.name_id))
 }
 
 fn encode_vlq_diff(out: &mut String, a: u32, b: u32) {
@@ -83,7 +95,11 @@ fn serialize_range_mappings(sm: &SourceMap) -> Option<String> {
         }
 
         // `serialize_mappings` does not write exact duplicates of the previous token
-        if num_in_line > 0 && Some(&token) == sm.get_token(idx - 1).as_ref() {
+        if num_in_line > 0
+            && sm
+                .get_token(idx - 1)
+                .is_some_and(|prev| is_same_segment(&token, &prev))
+        {
             continue;
         }
 
@@ -132,7 +148,10 @@ fn serialize_mappings(sm: &SourceMap) -> String {
                 prev_dst_line += 1;
             }
         } else if idx > 0 {
-            if Some(&token) == sm.get_token(idx - 1).as_ref() {
+            if sm
+                .get_token(idx - 1)
+                .is_some_and(|prev| is_same_segment(&token, &prev))
+            {
                 continue;
             }
             rv.push(',');
